@@ -391,7 +391,7 @@ func TestVerifC12(t *testing.T) {
 	defer rep.Write()
 	r := vfNewRng(12)
 	root := t.TempDir()
-	n := vfScale(90, 2500)
+	n := vfScale(110, 9000)
 	var segOps, segImpl [][]string
 	for it := 0; it < n; it++ {
 		st := c12BuildStore(t, r, root)
